@@ -35,6 +35,7 @@ class Recorder:
         self.value_counter = itertools.count(1)
         self.thread_class = None        # lcc.Thread or the controller's CThread
         self.body_starts = {}
+        self.suffix = ""                # appended to the message of every log (text that is hard to write to a file)
 
     def record(self, *atom):
         self.trace.append(("?",) + atom)
@@ -68,7 +69,7 @@ def interp(rec, owner, script, env, thread_path=()):
         for a in script:
             op = a[0]
             if op == "log":
-                getattr(lcc, ["log_debug", "log_info", "log_warning", "log_error"][a[1]])("%s|%d" % (tag, a[2]))
+                getattr(lcc, ["log_debug", "log_info", "log_warning", "log_error"][a[1]])("%s|%d%s" % (tag, a[2], rec.suffix))
             elif op == "check":
                 log_check("%s|%d" % (tag, a[2]), bool(a[1]), None)
             elif op == "url":
